@@ -678,6 +678,14 @@ func main() {
 			if err := format.Node(&buf, pkg.Fset, nf); err != nil {
 				fatal("%s: print: %v", fn, err)
 			}
+			src := buf.Bytes()
+			if r.usedVrt && !bytes.Contains(src, []byte("//go:build")) {
+				// generic vrt helpers need go1.18+ language features even when the module's
+				// go.mod declares an older version: a go:build line sets the file's version
+				src = append([]byte("//go:build go1.21\n\n"), src...)
+				buf.Reset()
+				buf.Write(src)
+			}
 			h := sha256.Sum256([]byte(fn))
 			dir := filepath.Join(*flagOut, hex.EncodeToString(h[:6]))
 			os.MkdirAll(dir, 0o755)
